@@ -152,3 +152,19 @@ func KeyIdOf(pkix []byte) string {
 	}
 	return id
 }
+
+// ParseToken decodes an activation token string into its nonce and HMAC key.
+func ParseToken(token string) (*types.ServerLedActivationTokenNonce, error) {
+	if len(token) <= len(nodeenrollment.ServerLedActivationTokenPrefix) {
+		return nil, fmt.Errorf("token too short")
+	}
+	b, err := base58.FastBase58Decoding(token[len(nodeenrollment.ServerLedActivationTokenPrefix):])
+	if err != nil {
+		return nil, err
+	}
+	tn := new(types.ServerLedActivationTokenNonce)
+	if err := proto.Unmarshal(b, tn); err != nil {
+		return nil, err
+	}
+	return tn, nil
+}
